@@ -230,6 +230,14 @@ class SymExec:
         self.ctx.oblige(name, cond)
 
 
+class Undecided:
+    """a clause the contract cannot decide (e.g. a name the reference does not know): reported as undecided,
+    never as a pass and never as a violation"""
+
+    def __init__(self, reason):
+        self.reason = reason
+
+
 class Outcome:
     def __init__(self, kind, value=None, exc=None):
         self.kind = kind  # 'return' | 'raise'
@@ -350,6 +358,8 @@ def run_native(unit, case, inputs_json):
 
 
 def _as_bool(c):
+    if isinstance(c, Undecided):
+        return True
     if isinstance(c, (SBool, SInt)):
         raise Unsupported("symbolic clause in native evaluation")
     return bool(c)
